@@ -41,7 +41,7 @@ var dests = []reflect.Type{
 		B string
 	}{}),
 	reflect.TypeOf([1]*int{}),
-	reflect.TypeOf((*big.Int)(nil)), reflect.TypeOf((*big.Float)(nil)), reflect.TypeOf(big.Rat{}), reflect.TypeOf(complex128(0)), reflect.TypeOf([]float64(nil)),
+	reflect.TypeOf((*big.Int)(nil)), reflect.TypeOf((*big.Float)(nil)), reflect.TypeOf(big.Rat{}), reflect.TypeOf(complex128(0)), reflect.TypeOf([]float64(nil)), reflect.TypeOf([][]byte(nil)),
 }
 
 // refDests are the destinations of the "ref" domain: the first field takes a value as it comes, the second is
